@@ -7,7 +7,7 @@ for id in $IDS; do
   P=$(jq -r .breaks seeded/$id/meta.json)
   PROPS=$P
   # seeds documented as caught by another property's check
-  case $id in C06-B) PROPS="C12";; C05-H|C05-I) PROPS="C04";; C18-I) PROPS="C15";; C15-E) PROPS="C15 C14";; C18-D) PROPS="C18";; C09-K) PROPS="C10";; C06-J) PROPS="C12";; C05-K) PROPS="C04";; C07-J) PROPS="C09";; esac
+  case $id in C06-B) PROPS="C12";; C05-H|C05-I) PROPS="C04";; C18-I) PROPS="C15";; C15-E) PROPS="C15 C14";; C18-D) PROPS="C18";; C09-K) PROPS="C10";; C06-J) PROPS="C12";; C05-K) PROPS="C04";; C07-J) PROPS="C09";; C19-M) PROPS="C12";; C05-M) PROPS="C04 C02";; esac
   tools/try_seed.sh /verif/seeded/$id - quick $PROPS > $OUT/$id.log 2>&1
   applies=$(grep -c "patch does not apply" $OUT/$id.log)
   clean=$(grep -c "demo on clean tree: PASS" $OUT/$id.log)
